@@ -188,6 +188,23 @@ def run(chk):
             s = sum(be[1][:nal])
             if abs(s - N0) > 1e-8 * N0:
                 chk.fail("break-aligned bins sum to N0", sp, dict(sum=s))
+        # a per-call normalisation N overrides the object's own N0 - whatever its value or type (zero included): N(m) and every bin scale with N
+        for Nx in (0, 0.0, np.float64(0.0), 2.5 * float(N0), np.float32(3.0)):
+            m_in = ms[0]
+            i_in = max(0, min(len(a) - 1, sum(1 for b in mb[1:-1] if b < m_in)))
+            want = float(Nx) * Ar[i_in] * m_in ** a[i_in]
+            try:
+                got_n = float(imf(m_in, N=Nx))
+                bnx = imf.binned_eval(mbin(np.array(bl[:nal]), np.array(bu[:nal])), N=Nx)[0]
+                got_s = float(np.sum(bnx))
+            except Exception as e:  # noqa
+                chk.fail("N(m) and the binned numbers follow an explicit per-call normalisation N (break-aligned bins sum to N)", dict(sp, N=repr(Nx)),
+                         dict(error=type(e).__name__, msg=str(e)[:80]))
+                continue
+            chk.count("explicit per-call normalisations")
+            if not (abs(got_n - want) <= 1e-8 * abs(want) + 0.0) or not (abs(got_s - float(Nx)) <= 1e-8 * abs(float(Nx))):
+                chk.fail("N(m) and the binned numbers follow an explicit per-call normalisation N (break-aligned bins sum to N)", dict(sp, N=repr(Nx), m=m_in),
+                         dict(N_of_m=got_n, expected=want, bins_sum=got_s))
         mt = float(imf.Mtot)
         mt_ref = N0 * sum(seg_int(Ar[i], a[i], mb[i], mb[i + 1], 2) for i in range(len(a)))
         if abs(mt - mt_ref) > 1e-9 * mt_ref:
